@@ -125,7 +125,7 @@ static void run_case(vmc::Ctx& ctx, const Case& c)
     {
       ctx.count("rejected_configs");
       ctx.count("rejected_set_up:" + r.sig);
-      if (ctx.observations.size() < 30) ctx.observe("set_up rejected: " + r.sig + " on tof=" + vmc::str((int)w.tof) + " span=" + vmc::str(c.g.span) + " mash=" + vmc::str(c.g.mash) + (ok ? "" : (": " + what.substr(0, 100))));
+      if (r.leaves == 1) ctx.observe("set_up rejected: " + r.sig + " on tof=" + vmc::str((int)w.tof) + " span=" + vmc::str(c.g.span) + " mash=" + vmc::str(c.g.mash) + (ok ? "" : (": " + what.substr(0, 100))));
       return;
     }
   // ---- efficiencies the object reports
@@ -155,10 +155,15 @@ static void run_case(vmc::Ctx& ctx, const Case& c)
     }
   ctx.count("bins_with_independent_reference", (long long)n_known);
   ctx.count("bins_without_independent_reference", (long long)(nb - n_known));
-  if (r.atten) { ctx.count("attenuation_bins", (long long)nb); ctx.count("attenuation_bins_tie_screened", (long long)(nb - n_known)); }
+  if (r.atten)
+    {
+      ctx.count("attenuation_bins", (long long)r.atten_bins);
+      ctx.count("attenuation_bins_tie_screened", (long long)r.atten_bins_screened);
+      if (r.atten_bins_screened * 10 > r.atten_bins) // vacuous rather than pass: the generated geometries are chosen so that this does not happen
+        ctx.violation("clause=vacuous_too_many_ray_tracing_ties" + keytail0, kase, vmc::str(r.atten_bins_screened) + " of " + vmc::str(r.atten_bins) + " attenuation bins are on ray tracing ties (no reference)");
+    }
   if (n_zero) ctx.count("bins_with_zero_efficiency", (long long)n_zero);
   if (w.tof && r.sig.find("projdata") != std::string::npos && r.sig.find("projdata_tof") == std::string::npos) ctx.count("units_tof_data_with_non_tof_factors");
-  if (r.atten && n_known * 10 < nb * 9) ctx.observe("more than 10% of the bins are on ray tracing ties for " + c.g.str());
 
   if (reports)
     for (size_t i = 0; i < nb; ++i)
@@ -183,6 +188,8 @@ static void run_case(vmc::Ctx& ctx, const Case& c)
       // generic comparison of one execution; returns false if something was reported
       // mode UNDO: expect x*eff ; APPLY: x/eff where eff != 0 ; round trips: x where eff != 0
       auto check = [&](Op op, const Vec& x, const Vec& got, const Vec& u1, const std::string& dataname) {
+        std::set<std::string> reported; // one report per clause and execution; all bins are looked at
+        long long n_checked = 0, n_skipped = 0;
         for (size_t i = 0; i < nb; ++i)
           {
             double expect = 0, tol = 0;
@@ -191,21 +198,40 @@ static void run_case(vmc::Ctx& ctx, const Case& c)
             if (op == UNDO) { if (have[i]) { expect = x[i] * eff[i]; tol = rtol[i] * std::fabs(expect); chk = true; } else if (x[i] == 0) { expect = 0; chk = true; } }
             else if (op == APPLY) { if (have[i] && eff[i] != 0) { expect = x[i] / eff[i]; tol = rtol[i] * std::fabs(expect); chk = true; } }
             else { if (nonzero_eff) { expect = x[i]; tol = 2 * tol_chain * std::fabs(expect); chk = true; } }
-            if (!chk) { ctx.count("bin_checks_skipped"); continue; }
-            ctx.count("bin_checks");
+            if (!chk) { ++n_skipped; continue; }
+            ++n_checked;
             if (!(std::fabs(got[i] - expect) <= tol))
               {
                 const Bin& q = w.bi->bins[i];
                 std::string clause = op == UNDO ? "undo_factor" : op == APPLY ? "apply_factor" : op == APPLY_UNDO ? "roundtrip_apply_undo" : "roundtrip_undo_apply";
                 if (x[i] == 0 && (op == UNDO || op == APPLY)) clause = "diagonal";
                 else if (op == UNDO && got[i] == 0) clause += ";got=zero";
+                if (!reported.insert(clause).second) continue;
                 viol(clause, std::string(op == UNDO ? "undo" : op == APPLY ? "apply" : op == APPLY_UNDO ? "apply then undo" : "undo then apply") + " on " + dataname + ": bin " + small::bin_str(q)
                                  + " input " + vmc::str(x[i]) + " gives " + vmc::str(got[i]) + ", expected " + vmc::str(expect) + " (efficiency " + (have[i] ? vmc::str(eff[i]) : std::string("unknown"))
                                  + (r.known[i] ? ", documented model" : ", as reported by the object") + "; tolerance " + vmc::str(tol) + ")");
-                return false;
               }
           }
-        return true;
+        ctx.count("bin_checks", n_checked);
+        if (n_skipped) ctx.count("bin_checks_skipped", n_skipped);
+        return reported.empty();
+      };
+      // is_trivial() => bit-for-bit unchanged; the key says whether the changed bins are all outside the tangentially symmetric range
+      auto check_trivial = [&](const char* opname, const Vec& got) {
+        const int h = std::min(w.b.pdi->get_max_tangential_pos_num(), -w.b.pdi->get_min_tangential_pos_num());
+        size_t changed = 0, changed_inside = 0, first = nb;
+        for (size_t i = 0; i < nb; ++i)
+          if ((float)got[i] != (float)XL[i])
+            {
+              ++changed;
+              if (std::abs(w.bi->bins[i].tangential_pos_num()) <= h) { if (!changed_inside++) first = i; }
+              else if (first == nb) first = i;
+            }
+        if (!changed) return;
+        if (changed_inside) for (size_t i = 0; i < nb; ++i) if ((float)got[i] != (float)XL[i] && std::abs(w.bi->bins[i].tangential_pos_num()) <= h) { first = i; break; }
+        viol(std::string("trivial_changes_data;bins=") + (changed_inside ? "any" : "outside_symmetric_tangential_range"),
+             std::string("is_trivial() is true but ") + opname + " changes " + vmc::str(changed) + " bins (" + vmc::str(changed_inside) + " of them with |tangential position| <= " + vmc::str(h) + "), e.g. bin "
+                 + small::bin_str(w.bi->bins[first]) + " from " + vmc::str(XL[first]) + " to " + vmc::str(got[first]));
       };
       // ---- undo(1): the efficiencies as applied
       Vec u1;
@@ -213,7 +239,7 @@ static void run_case(vmc::Ctx& ctx, const Case& c)
         {
           ctx.count("rejected_calls");
           ctx.count(std::string("rejected_call:") + PATHN[path] + ":" + r.sig + ":sym=" + (c.sy == 0 ? "none" : "pet"));
-          if (ctx.observations.size() < 30) ctx.observe(std::string("call rejected (") + PATHN[path] + ", sy=" + vmc::str(c.sy) + ", " + r.sig + "): " + what.substr(0, 110));
+          if (r.leaves == 1) ctx.observe(std::string("call rejected by STIR (symmetries ") + (c.sy == 0 ? "none/trivial" : "PET_CartesianGrid") + ", " + r.sig + "): " + what.substr(0, 110));
           continue;
         }
       any_accepted = true;
@@ -233,6 +259,9 @@ static void run_case(vmc::Ctx& ctx, const Case& c)
             {
               const Bin& q = w.bi->bins[i];
               if (!r.known[i] || w.b.pdi->get_tantheta(q) != 0) continue;
+              // the ray tracing spreads a direct bin over the planes zc-1..zc+1 and the projectors clip z: only bins that stay inside
+              const double zc = w.b.pdi->get_m(q) / vs.z() + (w.b.im->get_min_z() + w.b.im->get_max_z()) / 2.;
+              if (!(zc - 1 >= w.b.im->get_min_z() - 1e-3 && zc + 1 <= w.b.im->get_max_z() + 1e-3)) { ctx.count("chord_length_ties_skipped_axial_edge"); continue; }
               const double s = w.b.pdi->get_s(q);
               const double chord = 2 * std::sqrt(std::max(0., fovrad * fovrad - s * s));
               const double hi = std::exp(-mu * (chord * (1 - 1e-3) - 1e-3) / 10) * (1 + 1e-5), lo = std::exp(-mu * (chord * (1 + 1e-3) + 2 * diag * 1.001) / 10) * (1 - 1e-5);
@@ -263,16 +292,13 @@ static void run_case(vmc::Ctx& ctx, const Case& c)
         {
           if (!exec(w, N, path, op, XL, y, what)) { viol("throws_after_accepting", "an operation throws although undo(1) was accepted: " + what.substr(0, 120)); break; }
           check(op, XL, y, u1, "labelling data");
-          if (op == APPLY && trivial)
-            for (size_t i = 0; i < nb; ++i)
-              if ((float)y[i] != (float)XL[i]) { viol("trivial_changes_data", "is_trivial() is true but apply changes bin " + small::bin_str(w.bi->bins[i]) + " from " + vmc::str(XL[i]) + " to " + vmc::str(y[i])); break; }
+          if (op == APPLY && trivial) check_trivial("apply", y);
         }
       if (exec(w, N, path, APPLY, X1, y, what)) check(APPLY, X1, y, u1, "all ones");
       if (trivial && haveL[path])
         {
           ctx.count("trivial_objects_checked_bitwise");
-          for (size_t i = 0; i < nb; ++i)
-            if ((float)undoL[path][i] != (float)XL[i]) { viol("trivial_changes_data", "is_trivial() is true but undo changes bin " + small::bin_str(w.bi->bins[i]) + " from " + vmc::str(XL[i]) + " to " + vmc::str(undoL[path][i])); break; }
+          check_trivial("undo", undoL[path]);
         }
       // ---- every unit bin: the operator is diagonal
       if (c.sweep)
@@ -394,22 +420,23 @@ int main(int argc, char** argv)
       return ctx.finish();
     }
   const bool th = ctx.thorough();
-  auto G = [](int D, int R, int span, int md, int mash, int tof, int tang, int nxy, int vxy) {
-    Geo g; g.D = D; g.R = R; g.span = span; g.md = md; g.mash = mash; g.tof = tof; g.tang = tang; g.nxy = nxy; g.vxy = vxy; return g;
+  auto G = [](int D, int R, int span, int md, int mash, int tof, int tang, int nz, int nxy, int vxy) {
+    Geo g; g.D = D; g.R = R; g.span = span; g.md = md; g.mash = mash; g.tof = tof; g.tang = tang; g.nz = nz; g.nxy = nxy; g.vxy = vxy; return g;
   };
   std::vector<Geo> geos;
-  geos.push_back(G(8, 2, 1, -1, 1, 0, 3, 3, 100));  // span 1, 3 tangential positions
-  geos.push_back(G(8, 2, 1, 0, 1, 0, 0, 5, 50));    // 4 (even) tangential positions, only segment 0 of 3, voxels of half a bin
-  geos.push_back(G(8, 2, 3, -1, 1, 0, 3, 3, 100));  // span 3
-  geos.push_back(G(8, 2, 1, -1, 1, 3, 3, 3, 100));  // TOF, 3 bins
+  geos.push_back(G(8, 2, 1, -1, 1, 0, 3, 0, 3, 100));  // span 1, 3 tangential positions
+  geos.push_back(G(8, 2, 1, 0, 1, 0, 0, 5, 5, 50));    // 4 (even) tangential positions, only segment 0 of 3, voxels of half a bin, 5 planes (no axial clipping)
+  geos.push_back(G(8, 2, 3, -1, 1, 0, 3, 0, 3, 100));  // span 3
+  geos.push_back(G(8, 2, 1, -1, 1, 3, 3, 0, 3, 100));  // TOF, 3 bins
+  geos.push_back(G(16, 1, 1, -1, 1, 0, 5, 0, 5, 100)); // 8 views, 4 transaxial blocks (geo/block factors defined for every bin)
   if (th)
     {
-      geos.push_back(G(12, 2, 1, -1, 1, 0, 5, 5, 125)); // 6 views: no 90 degree symmetry
-      geos.push_back(G(16, 2, 1, -1, 2, 0, 5, 5, 100)); // view mashing
-      geos.push_back(G(8, 3, 1, 1, 1, 0, 3, 3, 100));   // 3 rings, max ring difference 1 of 2
-      geos.push_back(G(16, 1, 1, -1, 1, 0, 7, 7, 100)); // 8 views
-      geos.push_back(G(8, 2, 1, -1, 1, 5, 3, 3, 100));  // TOF, 5 bins
-      geos.push_back(G(8, 3, 3, -1, 1, 3, 3, 3, 100));  // TOF, span 3
+      geos.push_back(G(12, 2, 1, -1, 1, 0, 5, 0, 5, 110)); // 6 views: no 90 degree symmetry, voxels of 1.1 bins
+      geos.push_back(G(16, 2, 1, -1, 2, 0, 5, 0, 5, 100)); // view mashing
+      geos.push_back(G(8, 3, 1, 1, 1, 0, 3, 0, 3, 100));   // 3 rings, max ring difference 1 of 2
+      geos.push_back(G(16, 2, 1, -1, 1, 0, 6, 0, 7, 100)); // 8 views, 2 rings, even tangential size
+      geos.push_back(G(8, 2, 1, -1, 1, 5, 3, 0, 3, 100));  // TOF, 5 bins
+      geos.push_back(G(8, 3, 3, -1, 1, 3, 3, 0, 3, 100));  // TOF, span 3
     }
   uint64_t unit = 0;
   for (const Geo& g : geos)
